@@ -548,6 +548,15 @@ func TestInsideMarshallers(t *testing.T) {
 		for r := 0; r < nrec; r++ {
 			nm := rapid.IntRange(1, 3).Draw(t, "marshallers")
 			args := []any{"plain", r}
+			freshContext := rapid.IntRange(0, 5).Draw(t, "printedByAFreshContext") == 0
+			// what the previous marshaller of this record left unread: whatever the library appends afterwards, the
+			// next marshaller finds it at the front of the encoder (a write never changes what is unread before it)
+			left, haveLeft := "", false
+			continues := func(enc *slog.PrintCtx, tag string) {
+				if haveLeft && failure == "" && !strings.HasPrefix(enc.String(), left) {
+					failure = fmt.Sprintf("%s (format=%s): the previous marshaller left %d unread bytes %q; after the library's own writes the encoder holds %d bytes %q, which do not continue them", tag, format, len(left), clipStr(left), enc.Len(), clipStr(enc.String()))
+				}
+			}
 			for m := 0; m < nm; m++ {
 				ops := rapid.SliceOfN(genOp(), 0, 6).Draw(t, "ops")
 				if rapid.IntRange(0, 2).Draw(t, "startWithUnread") == 0 {
@@ -579,7 +588,13 @@ func TestInsideMarshallers(t *testing.T) {
 					}
 				}
 				tag := fmt.Sprintf("record %d marshaller %d", r, m)
+				// the string value the library prints between two marshallers: long ones make it reserve room at once
+				betweenLen := rapid.SampledFrom([]int{1, 1, 30, 250, 900}).Draw(t, "lengthOfTheStringBetween")
 				args = append(args, fmt.Sprintf("m%d", m), opMarshaller{run: func(enc *slog.PrintCtx) {
+					if failure != "" {
+						return
+					}
+					continues(enc, tag)
 					if failure != "" {
 						return
 					}
@@ -625,14 +640,19 @@ func TestInsideMarshallers(t *testing.T) {
 						}
 					}
 					endsWithRead = len(ops) > 0 && readKinds[ops[len(ops)-1].Kind] && ops[len(ops)-1].Kind != "UnreadByte" && ops[len(ops)-1].Kind != "UnreadRune"
-				}}, fmt.Sprintf("between%d", m), "text")
+					left, haveLeft = enc.String(), true
+				}}, fmt.Sprintf("m%dz", m), strings.Repeat("text ", betweenLen)) // the keys are sorted: m0 < m0z < m1 < m1z < plain < zzlast
 			}
+			args = append(args, "zzlast", opMarshaller{run: func(enc *slog.PrintCtx) { continues(enc, fmt.Sprintf("record %d after the last marshaller", r)) }})
 			func() {
 				defer func() {
 					if p := recover(); p != nil && failure == "" {
 						failure = fmt.Sprintf("record %d: the log call panicked: %v", r, p)
 					}
 				}()
+				if freshContext {
+					vlib.FreshContexts() // the record is printed into a buffer of the initial size, which has to grow on the way
+				}
 				lg.LogAttrs(context.Background(), slog.InfoLevel, "marshaller record", args...)
 			}()
 			if failure != "" {
@@ -648,4 +668,11 @@ func TestInsideMarshallers(t *testing.T) {
 			vlib.Sample("TestInsideMarshallers", map[string]any{"format": format, "records": nrec, "ops": desc})
 		}
 	})
+}
+
+func clipStr(s string) string {
+	if len(s) > 160 {
+		return s[:80] + "..." + s[len(s)-80:]
+	}
+	return s
 }
